@@ -6,7 +6,7 @@
 //   H <workers> <rounds> <b,b,...>    Http::Endpoint (header/body time-out 600 ms) with an Http::Handler:
 //        c connect+close, f request/response/close, k two keep-alive requests, d partial head+close, b partial body+close,
 //        h request+shutdown(WR)+read to EOF, r request+RST, i silence until the server closes, j partial head then silence,
-//        m request/response then silence until the server closes
+//        m request/response then silence until the server closes, w 24 MB answer never read (write blocked across several idle scans) then RST
 //     -> <T|H> conns=<connections made> logs=<sorted per-peer callback logs: C connection, I input/request (collapsed), D disconnection>
 //            after_disc=<callbacks seen for a peer after its disconnection> fd_delta=<open descriptors at the end - idle baseline>
 #include <pistache/endpoint.h>
@@ -83,7 +83,10 @@ public:
     void onRequest(const Http::Request& req, Http::ResponseWriter response) override
     {
         g_log.add(response.getPeer()->getID(), 'I');
-        response.send(Http::Code::Ok, "hello " + req.resource());
+        if (req.resource() == "/big")
+            response.send(Http::Code::Ok, std::string(24u << 20, 'x'));
+        else
+            response.send(Http::Code::Ok, "hello " + req.resource());
     }
     void onDisconnection(const std::shared_ptr<Tcp::Peer>& peer) override { g_log.add(peer->getID(), 'D'); }
 };
@@ -213,6 +216,17 @@ void http_client(char b, uint16_t port)
         read_to_eof(fd, 4000);
         ::close(fd);
         break;
+    case 'w':
+    {
+        // a 24 MB answer is never read: the write blocks, the idle scan finds the peer again and again
+        // and queues its 408 behind the stuck answer; finally the client resets
+        int small = 4096;
+        setsockopt(fd, SOL_SOCKET, SO_RCVBUF, &small, sizeof small);
+        pv::send_all(fd, "GET /big HTTP/1.1\r\nHost: a\r\n\r\n");
+        std::this_thread::sleep_for(std::chrono::milliseconds(2000));
+        rst_close(fd);
+        break;
+    }
     default: ::close(fd);
     }
 }
